@@ -109,6 +109,18 @@ SweepSet ==
                   d \in {x \in RegCodes(ShtNames(m)) \cup Boundary32 : PlainType(x)}} : m \in SweepMachines}
   \cup UNION {{<<"sh_type", [Base(<<32, FALSE>>, m) EXCEPT !.secs = <<OneSec(W(DTrunc(d, 4)))>>]>> :
                   d \in {x \in RegCodes(ShtNames(m)) : PlainType(x)}} : m \in {Code("EM_ARM"), Code("EM_MIPS")}}
+  \* section types that call for a specialised object and are not among the writer's section kinds: minimal valid content (zeros: one
+  \* null symbol / an empty hash table), under several OS ABIs (the type names do not depend on the OS ABI)
+  \* (user section 1 is a dynamic symbol table; the special section links to it)
+  \cup {<<"sh_special", [Base(cl, m) EXCEPT !.osabi = o, !.secs = <<Sec(DotSymtab, N(11), N(2), Z, Rep(0, SymSize(cl[1])), N(SymSize(cl[1])),
+                                                                        N(3), N(1), N(8), N(SymSize(cl[1]))),   \* link: the name table, index 3
+                                                                    Sec(DotData, W(DTrunc(Reg[n], 4)), N(2), Z, Rep(0, SymSize(cl[1])),
+                                                                        N(SymSize(cl[1])),
+                                                                        IF n \in {"SHT_DYNSYM", "SHT_SUNW_LDYNSYM", "SHT_GNU_verneed", "SHT_GNU_verdef"} THEN N(3) ELSE N(1),
+                                                                        Z, N(8), N(SymSize(cl[1])))>>]>> :
+           cl \in {<<32, FALSE>>, <<64, TRUE>>}, m \in {62, 40}, o \in {0, 3, 6, 9},
+           n \in {"SHT_DYNSYM", "SHT_SUNW_LDYNSYM", "SHT_SYMTAB_SHNDX", "SHT_SUNW_syminfo", "SHT_GNU_verneed", "SHT_GNU_verdef", "SHT_GNU_versym",
+                  "SHT_HASH", "SHT_GNU_HASH"}}
   \* p_type likewise
   \cup UNION {{<<"p_type", [Base(<<64, FALSE>>, m) EXCEPT !.segs = <<OneSeg(W(DTrunc(d, 4)))>>]>> :
                   d \in RegCodes(PtNames(m)) \cup Boundary32} : m \in SweepMachines}
